@@ -114,11 +114,6 @@ package filtering
 //@ define hostMatches(e *LegacyRewrite, host string) bool = e.Domain == host || (isWild(e.Domain) && strings.HasSuffix(host, e.Domain[1:]))
 //@ define typeMatches(e *LegacyRewrite, qt uint16) bool = e.Type == 5 || ((qt == 1 || qt == 28) && (e.Type == qt || e.IP == netip.Addr{}))
 //@ define before(a *LegacyRewrite, b *LegacyRewrite) bool = (isCN(a) && !isCN(b)) || (isCN(a) == isCN(b) && ((!isWild(a.Domain) && isWild(b.Domain)) || (isWild(a.Domain) == isWild(b.Domain) && len(a.Domain) > len(b.Domain))))
-// mark(k) is always true; used as the instantiation pattern of "for every k there is an i" facts so that, together with
-// their "for every i there is a k" counterparts, they do not feed the solver's instantiation loop (such a fact is used
-// only at the index the goal names, which the verifier instantiates itself).
-//@ declare mark(k int) bool
-//@ axiom mark_true: forall k int :: {mark(k)} mark(k)
 //@ define sortedLR(x []*LegacyRewrite) bool = forall i int, j int :: 0 <= i && i < j && j < len(x) ==> !before(x[j], x[i])
 
 //@ func isWildcard(pat string) (r0 bool)
